@@ -3,3 +3,75 @@ import contracts.C03 as _c03  # noqa: F401  (unit nonparametric.two_estimands_on
 
 LEVEL = "proof"
 ASSUMPTIONS = list(_c03.ASSUMPTIONS)
+
+import z3  # noqa: E402
+
+import contracts.C02 as C02  # noqa: E402
+from contracts.common import Three  # noqa: E402
+from pyvc import frames  # noqa: E402
+from pyvc.api import unit  # noqa: E402
+from pyvc.values import NamedTuple, V  # noqa: E402
+
+MRH = C02.MRH
+
+
+def _schema(n_est):
+    ests = ["turnout", "dem", "gop"][:n_est]
+
+    @unit("C13", f"schema.{n_est}_estimands", fns=[f"{MRH}.add_unit_predictions", f"{MRH}.add_unit_intervals", f"{MRH}.add_agg_predictions", f"{MRH}.process_final_results"])
+    def schema(h):
+        """the returned tables keep the same key and category columns however many estimands are requested"""
+        alphas = [0.9]
+        extra_int = []
+        for e in ests[1:]:
+            extra_int += [f"results_{e}", f"last_election_results_{e}"]
+        t = Three(h, "turnout", int_extra=tuple(extra_int))
+        mr = C02._handler(h, t, ["postal_code", "unit"], alphas)
+        u = t.root.u
+        gs = frames.keyspace(["postal_code"], {"postal_code": z3.StringSort()})
+        pres = z3.Function("state_present", z3.StringSort(), z3.BoolSort())(gs.keyvars["postal_code"])
+        for e in ests:
+            pred = V(z3.Function(f"unit_pred_{e}", z3.IntSort(), z3.IntSort())(u), (t.nonrep.axis,), t.nonrep.index)
+            k, _ = h.call_method(mr, "add_unit_predictions", e, pred)
+            pis = {}
+            for a in alphas:
+                lo = V(z3.Function(f"unit_lower_{e}", z3.IntSort(), z3.IntSort())(u), (t.nonrep.axis,), None)
+                up = V(z3.Function(f"unit_upper_{e}", z3.IntSort(), z3.IntSort())(u), (t.nonrep.axis,), None)
+                pis[a] = NamedTuple("PredictionIntervals", ["lower", "upper", "conformalization"], [lo, up, None])
+            k, _ = h.call_method(mr, "add_unit_intervals", e, pis)
+            if k == "raise":
+                return h.fail("add_unit_intervals.no_raise", f"raised {_}")
+            # one state table per estimand, as get_aggregate_predictions returns it (same groups for every estimand)
+            ax = frames.RowAxis(gs, [pres], ("sorted", ("postal_code",)))
+            cnt = z3.Function("state_reporting", z3.StringSort(), z3.IntSort())(gs.keyvars["postal_code"])
+            est = frames.Frame(ax, {}, ("range", ax.name), None)
+            est.cols["postal_code"] = V(gs.keyvars["postal_code"], (ax,), est.index)
+            for c in (f"pred_{e}", f"results_{e}"):
+                est.cols[c] = V(z3.Function(f"state_{c}", z3.StringSort(), z3.IntSort())(gs.keyvars["postal_code"]), (ax,), est.index)
+            est.cols["reporting"] = V(cnt, (ax,), est.index)
+            ints = {a: NamedTuple("PredictionIntervals", ["lower", "upper"], [V(z3.Function(f"state_lower_{e}", z3.StringSort(), z3.IntSort())(gs.keyvars["postal_code"]), (ax,), est.index), V(z3.Function(f"state_upper_{e}", z3.StringSort(), z3.IntSort())(gs.keyvars["postal_code"]), (ax,), est.index)]) for a in alphas}
+            k, _ = h.call_method(mr, "add_agg_predictions", e, "postal_code", est, ints)
+            if k == "raise":
+                return h.fail("add_agg_predictions.no_raise", f"raised {_}")
+        k, _ = h.call_method(mr, "process_final_results")
+        if k == "raise":
+            return h.fail("process_final_results.no_raise", f"raised {_}")
+        fin = mr.attrs["final_results"]
+        ud, sd = fin["unit_data"], fin["state_data"]
+        keys_unit = ["postal_code", "geographic_unit_fips", "reporting", "unit_category"]
+        h.ensures("unit_table.key_and_category_columns_exactly_once", all(list(ud.cols).count(c) == 1 for c in keys_unit) and not any(c.startswith("unit_category_") for c in ud.cols), why=f"unit_data columns: {list(ud.cols)}")
+        h.ensures("state_table.key_columns_exactly_once", all(list(sd.cols).count(c) == 1 for c in ["postal_code", "reporting"]), why=f"state_data columns: {list(sd.cols)}")
+        for e in ests:
+            for c in (f"pred_{e}", f"results_{e}", f"lower_0.9_{e}", f"upper_0.9_{e}"):
+                h.ensures(f"every_requested_column_present[{c}]", c in ud.cols and c in sd.cols)
+        facts = z3.And(*t.root.facts())
+        h.ensures("unit_table.every_unit_still_exactly_once", z3.Implies(facts, ud.axis.multiplicity() == z3.If(z3.Or(t.R, t.N, t.T), 1, 0)))
+        # the first estimand's columns are what a single-estimand request would have returned
+        rows = z3.And(*ud.axis.facts())
+        h.ensures("unit_table.values_of_an_estimand_do_not_depend_on_the_others", z3.Implies(z3.And(rows, t.N), ud.col("pred_turnout").t == z3.Function("unit_pred_turnout", z3.IntSort(), z3.IntSort())(u)))
+
+    return schema
+
+
+for _n in (1, 2, 3):
+    _schema(_n)
